@@ -174,9 +174,10 @@ Definition connect_refused (s : shared) : shared := set_last_error s true.
 Definition pop_refuse (s : shared) : bool * shared :=
   match refuse s with [] => (false, s) | b :: r => (b, set_refuse s r) end.
 
-(* closeConnection *)
+(* closeConnection: besides dropping the connection it stores 'disconnected' as last error when none is stored, so
+   that the next successful connect runs the reconnect callbacks *)
 Definition close_conn (s : shared) : shared :=
-  set_ann (set_connected (set_conn s false) false) (ann s ++ [false]).
+  set_last_error (set_ann (set_connected (set_conn s false) false) (ann s ++ [false])) true.
 
 (* check_connection at the start of communicate: Some = goes on (parked at the given point), None = SilentError *)
 Definition begin_exch (now : Z) (s : shared) : option (shared * cpc) :=
@@ -303,14 +304,15 @@ Definition caller_enabled (me : nat) (now : Z) (s : shared) (c : cst) : bool :=
   end.
 
 (* ---------------------------------------------------------------- poll thread: only its calls of
-   read_is_connected are followed; nxt = it goes straight into the next read_is_connected *)
+   read_is_connected are followed; nxt = it goes straight into the next read_is_connected.  Its start registers the
+   reconnect callback trigger_all (key TRIGGER), which returns True *)
 Definition TRIGGER : nat := 99.
 Definition after_read (nxt : bool) : ppc := if nxt then QAccess else QIdle.
 
 Definition poll_step (nxt : bool) (s : shared) (p : ppc) : shared * ppc :=
   match p with
   | QNone => (s, QNone)
-  | QStart => (set_cbs s (cbs s ++ [(TRIGGER, CbNone)]), after_read nxt)
+  | QStart => (set_cbs s (cbs s ++ [(TRIGGER, CbTrue)]), after_read nxt)
   | QIdle => (s, after_read nxt)
   | QAccess => if connected s then (s, after_read nxt) else (set_acc_owner s (Some TP), QConnect)
   | QConnect =>
